@@ -214,13 +214,24 @@ impl Context {
 
     /// Find or create a [Node] for the given commutative operation, with
     /// constant folding; deduplication is encouraged by sorting `a` and `b`.
+    ///
+    /// A single constant operand is always placed on the right-hand side,
+    /// because that's where the tape compiler puts immediates (e.g.
+    /// `MinRegImm`), and `min` / `max` are not bitwise commutative for zeros
+    /// of opposite sign.
     fn op_binary_commutative(
         &mut self,
         a: Node,
         b: Node,
         op: BinaryOpcode,
     ) -> Result<Node, BadNode> {
-        self.op_binary(a.min(b), a.max(b), op)
+        let (a, b) =
+            match (self.get_const(a).is_ok(), self.get_const(b).is_ok()) {
+                (true, false) => (b, a),
+                (false, true) => (a, b),
+                _ => (a.min(b), a.max(b)),
+            };
+        self.op_binary(a, b, op)
     }
 
     /// Builds an addition node
